@@ -1,11 +1,199 @@
-//! Scripted futures / streams / sinks and the #[trace] twin corpus (filled in later).
+//! Scripted futures / streams / sinks for the adapter properties (C13, C14): the body of every poll
+//! is a list of harness operations supplied by the Poll operation that drives it.
 
-use crate::exec::{Ret, ThreadCtx};
+use std::cell::UnsafeCell;
+use std::future::Future;
+use std::pin::Pin;
+use std::sync::Arc;
+use std::task::{Context, Poll, RawWaker, RawWakerVTable, Waker};
+
+use fastrace::prelude::*;
+use futures_core::Stream;
+use futures_sink::Sink;
+
+use crate::exec::{exec_op, Ret, ThreadCtx};
 use crate::model::OpRef;
-use crate::prog::Op;
+use crate::prog::*;
+use crate::sim;
 
-pub struct TaskBox;
+/// what the next call into the scripted object does
+pub struct Script {
+    ctx: *mut ThreadCtx,
+    idx: usize,
+    inner: Vec<Op>,
+    ready: bool,
+    item: bool,
+}
 
-pub fn exec_async(_ctx: &mut ThreadCtx, _idx: usize, _op: OpRef, _o: &Op, _inner: &[Op]) -> Ret {
-    panic!("harness: async ops not supported yet")
+pub struct ScriptCell(UnsafeCell<Script>);
+unsafe impl Send for ScriptCell {}
+unsafe impl Sync for ScriptCell {}
+
+impl ScriptCell {
+    fn new() -> Arc<ScriptCell> {
+        Arc::new(ScriptCell(UnsafeCell::new(Script {
+            ctx: std::ptr::null_mut(),
+            idx: 0,
+            inner: vec![],
+            ready: false,
+            item: false,
+        })))
+    }
+    #[allow(clippy::mut_from_ref)]
+    fn get(&self) -> &mut Script {
+        unsafe { &mut *self.0.get() }
+    }
+}
+
+fn run_body(cell: &ScriptCell) -> (bool, bool) {
+    let s = cell.get();
+    if s.ctx.is_null() {
+        return (false, false);
+    }
+    let ctx = unsafe { &mut *s.ctx };
+    let inner = std::mem::take(&mut s.inner);
+    for (k, iop) in inner.iter().enumerate() {
+        let r = node_id(s.idx, Some(k));
+        sim::log_ev(sim::K_SUBOP_BEGIN, r as u64, 0);
+        let ret = exec_op(ctx, s.idx, r, iop, &[]);
+        sim::log_ev(sim::K_SUBOP_END, r as u64, 0);
+        ctx.inner_rets.push((r, ret));
+    }
+    (s.ready, s.item)
+}
+
+pub struct ScriptedFuture(Arc<ScriptCell>);
+impl Future for ScriptedFuture {
+    type Output = ();
+    fn poll(self: Pin<&mut Self>, _cx: &mut Context<'_>) -> Poll<()> {
+        if run_body(&self.0).0 {
+            Poll::Ready(())
+        } else {
+            Poll::Pending
+        }
+    }
+}
+
+pub struct ScriptedStream(Arc<ScriptCell>);
+impl Stream for ScriptedStream {
+    type Item = u32;
+    fn poll_next(self: Pin<&mut Self>, _cx: &mut Context<'_>) -> Poll<Option<u32>> {
+        let (ready, item) = run_body(&self.0);
+        if ready {
+            Poll::Ready(None)
+        } else if item {
+            Poll::Ready(Some(7))
+        } else {
+            Poll::Pending
+        }
+    }
+}
+
+pub struct ScriptedSink(Arc<ScriptCell>);
+impl Sink<u32> for ScriptedSink {
+    type Error = ();
+    fn poll_ready(self: Pin<&mut Self>, _cx: &mut Context<'_>) -> Poll<Result<(), ()>> {
+        if run_body(&self.0).0 {
+            Poll::Ready(Ok(()))
+        } else {
+            Poll::Pending
+        }
+    }
+    fn start_send(self: Pin<&mut Self>, _item: u32) -> Result<(), ()> {
+        run_body(&self.0);
+        Ok(())
+    }
+    fn poll_flush(self: Pin<&mut Self>, _cx: &mut Context<'_>) -> Poll<Result<(), ()>> {
+        if run_body(&self.0).0 {
+            Poll::Ready(Ok(()))
+        } else {
+            Poll::Pending
+        }
+    }
+    fn poll_close(self: Pin<&mut Self>, _cx: &mut Context<'_>) -> Poll<Result<(), ()>> {
+        if run_body(&self.0).0 {
+            Poll::Ready(Ok(()))
+        } else {
+            Poll::Pending
+        }
+    }
+}
+
+pub enum TaskObj {
+    Fut(Pin<Box<dyn Future<Output = ()>>>),
+    Stream(Pin<Box<fastrace_futures::InSpan<ScriptedStream>>>),
+    Sink(Pin<Box<fastrace_futures::InSpan<ScriptedSink>>>),
+}
+
+pub struct TaskBox {
+    cell: Arc<ScriptCell>,
+    obj: Option<TaskObj>,
+}
+
+fn noop_raw_waker() -> RawWaker {
+    fn no_op(_: *const ()) {}
+    fn clone(_: *const ()) -> RawWaker {
+        noop_raw_waker()
+    }
+    static VTABLE: RawWakerVTable = RawWakerVTable::new(clone, no_op, no_op, no_op);
+    RawWaker::new(std::ptr::null(), &VTABLE)
+}
+
+pub fn noop_waker() -> Waker {
+    unsafe { Waker::from_raw(noop_raw_waker()) }
+}
+
+pub fn new_task(case: &Case, op: OpRef, wrap: &Wrap, span: Option<Span>) -> TaskBox {
+    let cell = ScriptCell::new();
+    let name = span_name(case.str_seed, op);
+    let obj = match wrap {
+        Wrap::InSpan => TaskObj::Fut(Box::pin(ScriptedFuture(cell.clone()).in_span(span.unwrap_or_default()))),
+        Wrap::EnterOnPoll => TaskObj::Fut(Box::pin(ScriptedFuture(cell.clone()).enter_on_poll(name))),
+        Wrap::InSpanEnterOnPoll => TaskObj::Fut(Box::pin(
+            ScriptedFuture(cell.clone()).enter_on_poll(name).in_span(span.unwrap_or_default()),
+        )),
+        Wrap::Stream => {
+            use fastrace_futures::StreamExt;
+            TaskObj::Stream(Box::pin(ScriptedStream(cell.clone()).in_span(span.unwrap_or_default())))
+        }
+        Wrap::Sink => {
+            use fastrace_futures::SinkExt;
+            TaskObj::Sink(Box::pin(SinkExt::<u32>::in_span(ScriptedSink(cell.clone()), span.unwrap_or_default())))
+        }
+    };
+    TaskBox { cell, obj: Some(obj) }
+}
+
+pub fn poll_task(tb: &mut TaskBox, ctx: &mut ThreadCtx, idx: usize, kind: PollKind, ready: bool, inner: &[Op]) -> Ret {
+    {
+        let s = tb.cell.get();
+        s.ctx = ctx;
+        s.idx = idx;
+        s.inner = inner.to_vec();
+        s.ready = ready;
+        s.item = kind == PollKind::PollNextItem;
+    }
+    let waker = noop_waker();
+    let mut cx = Context::from_waker(&waker);
+    let out = match (tb.obj.as_mut(), kind) {
+        (Some(TaskObj::Fut(f)), PollKind::Poll) => format!("{:?}", f.as_mut().poll(&mut cx)),
+        (Some(TaskObj::Stream(s)), PollKind::PollNext) | (Some(TaskObj::Stream(s)), PollKind::PollNextItem) => {
+            format!("{:?}", s.as_mut().poll_next(&mut cx))
+        }
+        (Some(TaskObj::Sink(s)), PollKind::PollReady) => format!("{:?}", s.as_mut().poll_ready(&mut cx)),
+        (Some(TaskObj::Sink(s)), PollKind::StartSend) => format!("{:?}", s.as_mut().start_send(1)),
+        (Some(TaskObj::Sink(s)), PollKind::PollFlush) => format!("{:?}", s.as_mut().poll_flush(&mut cx)),
+        (Some(TaskObj::Sink(s)), PollKind::PollClose) => format!("{:?}", s.as_mut().poll_close(&mut cx)),
+        _ => "mismatch".to_string(),
+    };
+    tb.cell.get().ctx = std::ptr::null_mut();
+    Ret::Value(out)
+}
+
+pub fn drop_task(tb: &mut TaskBox) {
+    tb.obj = None;
+}
+
+pub fn exec_async(ctx: &mut ThreadCtx, idx: usize, op: OpRef, o: &Op, inner: &[Op]) -> Ret {
+    crate::exec::exec_async_impl(ctx, idx, op, o, inner)
 }
